@@ -524,23 +524,34 @@ def dup_matrix(tier, seed):
     atoms = [(k, n) for k in DUP_KINDS for n in ("a", "b")]
     seqs = [list(x) for n in (2, 3) for x in itertools.product(atoms, repeat=n)]
     cases = [{"items": s_, "allow_recipes": ar, "allow_vars": av} for s_ in seqs for ar in (False, True) for av in (False, True)]
+    # the same sequences with the definitions from position `split` on written in an imported file (the import statement
+    # above or below the importer's own definitions): an import contributes its definitions as if written there
+    cases += [dict(c, split=k, import_first=f) for c in cases for k in range(1, len(c["items"])) for f in (False, True)]
     total = len(cases)
     if tier == "quick":
         rng = C.case_rng(seed, 0, "c03-dup")
         rng.shuffle(cases)
         # all two-item cases, a sample of the three-item ones
-        cases = [c for c in cases if len(c["items"]) == 2] + [c for c in cases if len(c["items"]) == 3][:700]
+        cases = [c for c in cases if len(c["items"]) == 2] + [c for c in cases if len(c["items"]) == 3 and "split" not in c][:700] + \
+            [c for c in cases if len(c["items"]) == 3 and "split" in c][:500]
     return cases, total
 
 
-def dup_text(c):
+def dup_text(c, part="root"):
     t = 'set shell := ["%s", "-c"]\n' % C.VSH
     if c["allow_recipes"]:
         t += "set allow-duplicate-recipes\n"
     if c["allow_vars"]:
         t += "set allow-duplicate-variables\n"
     t += "\nt:\n  [T]\n\n"
+    split = c.get("split", len(c["items"]))
+    if part == "import":
+        t = ""
+    elif "split" in c and c["import_first"]:
+        t += "import 'imp.just'\n\n"
     for i, (k, n) in enumerate(c["items"]):
+        if (i >= split) != (part == "import"):
+            continue
         if k == "recipe":
             t += "%s:\n  [R%d]\n\n" % (n, i)
         elif k == "alias":
@@ -549,6 +560,8 @@ def dup_text(c):
             t += "mod %s 'sub.just'\n\n" % n
         else:
             t += "%s := 'v%d'\n\n" % (n, i)
+    if part == "root" and "split" in c and not c["import_first"]:
+        t += "import 'imp.just'\n"
     return t
 
 
@@ -576,6 +589,8 @@ def run_dup(c):
     with C.scratch("c03d") as d:
         open(os.path.join(d, "justfile"), "w").write(dup_text(c))
         open(os.path.join(d, "sub.just"), "w").write("s:\n  [S]\n")
+        if "split" in c:
+            open(os.path.join(d, "imp.just"), "w").write(dup_text(c, "import"))
         logp = os.path.join(d, "vsh.log")
         env = dict(C.BASE_ENV)
         env.update({"HOME": d, "TMPDIR": d, "VSH_LOG": logp})
@@ -656,7 +671,7 @@ def run(report):
         if "fatal" in m:
             raise C.BuildError("model driver: " + m["fatal"])
         clash = dup_spec(c)
-        replay = {"justfile": dup_text(c), "files": {"sub.just": "s:\n  [S]\n"}, "case": c, "observed": r, "expected_clashing_names": sorted(clash)}
+        replay = {"justfile": dup_text(c), "files": dict({"sub.just": "s:\n  [S]\n"}, **({"imp.just": dup_text(c, "import")} if "split" in c else {})), "case": c, "observed": r, "expected_clashing_names": sorted(clash)}
         rejected = all(x["rc"] != 0 for x in r["runs"])
         accepted = all(x["rc"] == 0 for x in r["runs"])
         kinds = "+".join(sorted({k for k, n in c["items"] if n in clash})) if clash else "none"
@@ -754,7 +769,7 @@ def run(report):
     report.coverage.update({
         "evaluations": len(cases),
         "distinct_nontrivial": len(distinct),
-        "rule": "undefined name injected in %d contexts x %d constructor child positions (complete at depth 1 + one deep nesting); all digraphs on 3 nodes as variable and as recipe dependency graphs (thorough: + 6000 sampled 4-node digraphs each); dependency arity (8 target signatures x 0..3 arguments x prior/subsequent); every parameter list of 2 and 3 parameters over {required, defaulted} x {singular, +, *}; every function of the regenerated table + abbreviations + unknown names x 0..4 arguments; duplicate definitions: all sequences of 2 and 3 definitions over {recipe, alias, module, variable} x 2 names x both allow-duplicate settings (quick: all pairs, a sample of triples); ignore-comments corner cases; random valid programs; every recipe of every program is also RUN (rejected => nothing ran; accepted => no internal error); distinct = distinct justfile texts" % (len(CONTEXTS), len(W)),
+        "rule": "undefined name injected in %d contexts x %d constructor child positions (complete at depth 1 + one deep nesting); all digraphs on 3 nodes as variable and as recipe dependency graphs (thorough: + 6000 sampled 4-node digraphs each); dependency arity (8 target signatures x 0..3 arguments x prior/subsequent); every parameter list of 2 and 3 parameters over {required, defaulted} x {singular, +, *}; every function of the regenerated table + abbreviations + unknown names x 0..4 arguments; duplicate definitions: all sequences of 2 and 3 definitions over {recipe, alias, module, variable} x 2 names x both allow-duplicate settings, written in one file and divided at every position between the file and a file it imports (quick: all pairs, a sample of triples); ignore-comments corner cases; random valid programs; every recipe of every program is also RUN (rejected => nothing ran; accepted => no internal error); distinct = distinct justfile texts" % (len(CONTEXTS), len(W)),
         "samples": samples,
         "exhaustive": True,
         "traces_validated_against_impl": len(cases),
